@@ -8,7 +8,7 @@
 namespace vmerge {
 
 template <typename Doc>
-static void run_schema(const std::vector<std::string>& t, std::string& out, bool copy = false, int prep = 0) {
+static void run_schema(const std::vector<std::string>& t, std::string& out, int copy = 0, int prep = 0) {
   std::string ex;
   if (!unhex(t[2], ex)) {
     out = "bad-op";
@@ -55,6 +55,34 @@ static void run_schema(const std::vector<std::string>& t, std::string& out, bool
     out += "err=" + std::to_string((int)d.GetParseError()) + " tree=";
     vparse::tree(d, out);
   }
+  if (copy == 2) {
+    // schema-swap: the updated document is swapped into a second document, the donor is destroyed (a freeing allocator releases - the
+    // tracking allocator poisons - whatever the donor still owns), memory is recycled, and the receiver is read back
+    Doc c;
+    c.Swap(d);
+    dp.reset();
+    {
+      Doc scratch;
+      scratch.Parse(ex.data(), ex.size());
+    }
+    out += " copy=";
+    vparse::tree(c, out);
+    return;
+  }
+  if (copy == 3) {
+    // schema-reparse: the same document object is used again: Parse(existing) then ParseSchema(last text) once more, then destroyed;
+    // the read-back must equal the result of the first round
+    std::string last;
+    unhex(t.back(), last);
+    d.Parse(ex.data(), ex.size());
+    d.ParseSchema(last.data(), last.size());
+    out += " copy=";
+    vparse::tree(d, out);
+    Doc e2;
+    e2.Parse(ex.data(), ex.size());
+    d = std::move(e2);
+    return;
+  }
   if (copy) {
     // schema-copy: deep copy (default copyString = false) of the updated document into a second document, destroy the source
     // (with a freeing allocator its buffers are released and, under the tracking allocator, poisoned), re-parse something into a
@@ -72,8 +100,9 @@ static void run_schema(const std::vector<std::string>& t, std::string& out, bool
 }
 
 static void cmd(const std::vector<std::string>& t, std::string& out) {
-  if ((t[0] == "schema" || t[0] == "schema-copy" || t[0].compare(0, 11, "schema-prep") == 0) && t.size() >= 4) {
-    bool copy = t[0] == "schema-copy";
+  if ((t[0] == "schema" || t[0] == "schema-copy" || t[0] == "schema-swap" || t[0] == "schema-reparse" || t[0].compare(0, 11, "schema-prep") == 0) &&
+      t.size() >= 4) {
+    int copy = t[0] == "schema-copy" ? 1 : t[0] == "schema-swap" ? 2 : t[0] == "schema-reparse" ? 3 : 0;
     int prep = t[0] == "schema-prep1" ? 1 : t[0] == "schema-prep2" ? 2 : t[0] == "schema-prep3" ? 3 : 0;
     if (t[0].compare(0, 11, "schema-prep") == 0 && !prep) {
       out = "bad-op";
